@@ -132,15 +132,22 @@ func LookupWellKnown(ctx context.Context, serverNameType spec.ServerName) (*Well
 	// Convert result to JSON
 	// Only m.server is taken from the body: the cache lifetime comes from the
 	// response headers and must not be overridable by a key of the document.
-	var document struct {
-		NewAddress spec.ServerName `json:"m.server"`
-	}
+	// The members are read into a map because decoding into a struct matches the
+	// field names case-insensitively: {"M.SERVER": ...} would delegate as well, and
+	// would even override an "m.server" written before it.
+	var document map[string]json.RawMessage
 	err = json.Unmarshal(body, &document)
 	if err != nil {
 		return nil, err
 	}
+	var newAddress spec.ServerName
+	if rawAddress, ok := document["m.server"]; ok {
+		if err = json.Unmarshal(rawAddress, &newAddress); err != nil {
+			return nil, err
+		}
+	}
 	wellKnownResponse := &WellKnownResult{
-		NewAddress:     document.NewAddress,
+		NewAddress:     newAddress,
 		CacheExpiresAt: expiryTimestamp,
 	}
 
